@@ -60,10 +60,58 @@ class P:
             (a, ca), (b, cb) = pair
             dcases.append("%s\t%s\t%s\t%s" % (hx(a), ",".join("c" + hx(x) for x in ca), hx(b), ",".join("c" + hx(x) for x in cb)))
 
+        # the layout model (Lex/Layout.v, extracted): every string over the layout alphabet between two tokens, in argument position
+        # and at the line break after && || |; the model says what the scanner makes of it (joins / separates / ends the line /
+        # continues the command, and which comments), the implementation must parse the text like the canonical rendering
+        import itertools
+        alpha = [" ", "\t", "\\\n", "#c", "# d e", "\n", "#"]
+        L = 4 if tier == "quick" else 5
+        texts = ["".join(t) for n_ in range(0, L + 1) for t in itertools.product(alpha, repeat=n_)]
+        gcases = []
+        for ctx, pre in (("arg", "a"), ("lb", "a &&"), ("lb", "a |"), ("lb", "x || a ||")):
+            for t in texts:
+                gcases.append((ctx, pre, t))
+        gm = C.run_driver("gap", ["%s\t%s" % (ctx, hx(t + "b\n")) for ctx, pre, t in gcases])
+        lay_cases, lay_expect = [], []
+        for (ctx, pre, t), (m, _j) in zip(gcases, gm):
+            k, cs, rest = m.split(":")
+            rest = unhx(rest).decode("utf-8", "replace")
+            src = pre + t + "b\n"
+            if k == "J":
+                canon = pre + rest
+            elif k == "B":
+                canon = pre + " " + rest
+            elif k in ("L", "E"):
+                canon = pre + "\n" + rest
+            elif k == "K":
+                canon = pre + " " + rest
+            else:
+                canon = None
+            if canon is None:
+                # the model says the command ends where one must begin: the implementation must reject the text too
+                lay_cases.append("%s\t%s\t%s\t" % (hx(src), cs, hx("a\n")))
+                lay_expect.append("reject")
+            elif rest in ("b\n", ""):
+                lay_cases.append("%s\t%s\t%s\t" % (hx(src), cs, hx(canon)))
+                lay_expect.append("same")
+            else:
+                # the model stopped before the next token (a line continuation after a newline): the rest is scanned by the next
+                # call; only the program is compared, the comments of the rest are not predicted by one application of the model
+                lay_cases.append("%s\t*\t%s\t*" % (hx(src), hx(canon)))
+                lay_expect.append("same")
+        expect = dict(zip(lay_cases, lay_expect))
+
+        def gap_ok(c, o):
+            return o.startswith("skip:0:") if expect.get(c) == "reject" else o == "ok"
+        gap_part = {"name": "layout-model", "harness": "layout", "driver": None, "cases": lay_cases, "impl_ok": gap_ok,
+                    "nontrivial": lambda c: True,
+                    "distribution": {"strings_over_layout_alphabet_le": L, "contexts": 4, "cases": len(lay_cases),
+                                     "model_says_rejected": sum(1 for e in lay_expect if e == "reject")}}
+
         def impl_ok(c, o):
             return o.startswith(("ok", "skip"))
         # a derivation is a sentence by construction (C02 checks that): a rendering that is rejected is a failure, not a skip
-        return [{"name": "derivation-layout-pairs", "harness": "layout", "driver": None, "cases": dcases, "impl_ok": lambda c, o: o == "ok",
+        return [gap_part, {"name": "derivation-layout-pairs", "harness": "layout", "driver": None, "cases": dcases, "impl_ok": lambda c, o: o == "ok",
                  "nontrivial": lambda c: c.split("\t")[0] != c.split("\t")[2],
                  "distribution": {"pairs": len(dcases)}},
                 {"name": "fixed-pairs", "harness": "layout", "driver": None, "cases": fixed, "impl_ok": lambda c, o: o == "ok",
